@@ -12,6 +12,11 @@
     __CPROVER_loop_invariant(g_mod->state == M_MOD_IDLE || g_mod->state == M_MOD_RUNNING || g_mod->state == M_MOD_PAUSED || g_mod->state == M_MOD_STOPPED || g_mod->state == M_MOD_ZOMBIE) \
     __CPROVER_decreases(nfds - i)
 #endif
+#ifdef V_DRIVER_UNIT
+#define M_VERIF_LOOPSPEC_ctx_loop \
+    __CPROVER_assigns(g.recvdrv_calls, g.recvdrv_timeout, g_ctx->quit, g_ctx->quit_code, g_ctx->stats.running_modules) \
+    __CPROVER_loop_invariant(g_ctx->state == M_CTX_LOOPING && g.loopstop_calls == 0 && g.loopstart_calls == 1 && (g.recvdrv_calls == 0 || g.recvdrv_timeout == -1))
+#endif
 #include "vmodel.h"
 #include "core/ctx.c"            /* the real translation unit, unmodified */
 static ev_src_t *g_src; static evt_priv_t *g_evt;
@@ -20,7 +25,7 @@ static ev_src_t *g_src; static evt_priv_t *g_evt;
 #include "recv.contracts.h"
 #elif defined(V_CTXAPI_UNIT)
 #include "ctxapi.contracts.h"
-#elif defined(V_LOOPSTART_UNIT) || defined(V_LOOPSTOP_UNIT) || defined(V_TICK_UNIT)
+#elif defined(V_LOOPSTART_UNIT) || defined(V_LOOPSTOP_UNIT) || defined(V_TICK_UNIT) || defined(V_DRIVER_UNIT)
 #include "loop.contracts.h"
 #elif defined(V_SETTICK_UNIT)
 #include "reg.contracts.h"
@@ -33,7 +38,7 @@ V_DEFINE_INPUTS(H_INPUTS)
 
 #include "vbuild.h"
 
-#if !defined(V_RECV_UNIT) && !defined(V_CTXAPI_UNIT) && !defined(V_LOOPSTART_UNIT) && !defined(V_LOOPSTOP_UNIT) && !defined(V_TICK_UNIT) && !defined(V_SETTICK_UNIT)
+#if !defined(V_RECV_UNIT) && !defined(V_CTXAPI_UNIT) && !defined(V_LOOPSTART_UNIT) && !defined(V_LOOPSTOP_UNIT) && !defined(V_TICK_UNIT) && !defined(V_SETTICK_UNIT) && !defined(V_DRIVER_UNIT)
 void h_push_evt(void) {
     build();
     g_evt = malloc(sizeof *g_evt); __CPROVER_assume(g_evt != NULL);
@@ -124,6 +129,28 @@ void h_set_tick(void) {
     g_ctx->tick.src = vin_has_src ? malloc(sizeof(ev_src_t)) : NULL; g_ctx->tick.tmr.ns = vin_up_other;
     int r = m_ctx_set_tick(vin_batch_len);
     V_COVER("tick-first", r == 0 && !vin_has_src && vin_batch_len == 1000); V_COVER("tick-change-period", r == 0 && vin_has_src && vin_batch_len != 0 && vin_up_other != vin_batch_len); V_COVER("tick-off", r == 0 && vin_batch_len == 0);
+    V_CANARY();
+}
+#endif
+
+#ifdef V_DRIVER_UNIT
+static void build_drv(void) {
+    build();
+    V_ASSUME(vin_tls_set_ret <= 0 && vin_tls_set_ret > -200);
+    g_loopstart_ret = vin_tls_set_ret; g_recvdrv_ret = vin_nfds; g_ctx->state = vin_ctx_state ? M_CTX_LOOPING : M_CTX_IDLE; g_ctx->quit_code = (uint8_t)vin_up_other;
+}
+void h_loop_events(void) {
+    build_drv();
+    int r = m_ctx_loop_events(g_ctx, vin_pw_errno);
+    V_COVER("loop-ran-and-stopped", g.loopstop_calls == 1 && g.recvdrv_calls == 1); V_COVER("loop-nothing-running-at-start", g.loopstop_calls == 1 && g.recvdrv_calls == 0);
+    V_COVER("loop-start-failed", r < 0 && g.loopstart_calls == 1); V_COVER("loop-already-looping", r == -EINVAL && g.loopstart_calls == 0 && vin_pw_errno > 0); V_COVER("loop-quit-code-7", r == 7);
+    V_CANARY();
+}
+void h_dispatch(void) {
+    build_drv();
+    g_mctx = vin_tls_kind ? g_ctx : NULL;
+    int r = m_ctx_dispatch();
+    V_COVER("dispatch-starts", g.loopstart_calls == 1); V_COVER("dispatch-stops-with-code", g.loopstop_calls == 1 && r == 9); V_COVER("dispatch-delivers", g.recvdrv_calls == 1 && r == 3); V_COVER("dispatch-no-context", r == -EPIPE);
     V_CANARY();
 }
 #endif
